@@ -62,7 +62,9 @@ def main():
             return
         if not a.skip_tests:
             conf["failing_tests_changed"] = failing_tests(wt)
-            conf["tests_same"] = conf["failing_tests_changed"] == conf["failing_tests_unchanged"]
+            # the randomised rnp test fails now and then on the unchanged tree too (known finding rnp-suboptimal): not compared
+            flaky = "test_recursive_number_partitioning.py::TestRNP::test_on_random_inputs"
+            conf["tests_same"] = [t for t in conf["failing_tests_changed"] if flaky not in t] == [t for t in conf["failing_tests_unchanged"] if flaky not in t]
         rc1, out1 = run_demo()
         conf["demo_changed"] = {"rc": rc1, "tail": out1[-600:]}
         conf["demo_discriminates"] = (rc0 == 0 and rc1 not in (0, None))
